@@ -76,7 +76,7 @@ func Path(ref spec.Ref, basePath string) string {
 	}
 
 	refURL, _ := url.Parse(uri)
-	if refURL.Host != "" {
+	if refURL != nil && refURL.Host != "" { // the unescaped uri may not parse (e.g. a name with a literal '%'): then it is a local path
 		return uri
 	}
 
